@@ -486,6 +486,39 @@ def rule_r7(ck, prog, rule='C06.R7'):
                why + ': the measurements of the skipped storages never reach this reader')
 
 
+def rule_r8(ck, prog, rule='C06.R8'):
+    """the temporality a collector answers with is the reader's answer for *this* instrument type on *this* call: on every path to a
+    return the reader is asked with the instrument-type parameter, and the function keeps no state between calls (nothing rooted in
+    `this` is written) - a cached answer makes the first instrument collected decide for all others of the same reader"""
+    f = prog.function('sdk::metrics::MetricCollector::GetAggregationTemporality')
+    g = Graph(prog, f, inline=None, sync_lambdas=False)
+    it = f.params[0]
+    asks = [p for p in g.points if p.f is f and p.n is not None and p.n['k'] == 'call' and strip_targs(p.n.get('c', '')).endswith('MetricReader::GetAggregationTemporality')]
+    fwd = [p for p in asks if p.n.get('args') and strip_casts(f, p.n['args'][0]).get('id') == it['id']]
+    rets = g.returns()
+    skip = g.reachable_from(g.entry, avoid=fwd)
+    ok = bool(fwd) and bool(rets) and not any(r.id in skip for r in rets)
+    ck.verdict(ok, rule, f, 'reader-asked-with-the-instrument-type-on-every-path', (asks[0].n if asks else None),
+               'every return is preceded by metric_reader_->GetAggregationTemporality(instrument_type)' if ok else
+               'MetricCollector::GetAggregationTemporality can answer without asking the reader for this instrument type: a reader whose temporality differs per instrument type (counter delta, up-down counter cumulative) gets the wrong one')
+    wr = None
+    for n in f.nodes:
+        tgt = None
+        if n['k'] == 'binop' and n['op'].endswith('=') and n['op'] not in ('==', '!=', '<=', '>='):
+            tgt = n['lhs']
+        elif n['k'] == 'unop' and n['op'] in ('++', '--'):
+            tgt = n['e']
+        if tgt is None:
+            continue
+        ap = access_path(f, tgt)
+        if ap and ap[0] == 'this' and len(ap) >= 2:
+            wr = (n, ap)
+            break
+    ck.verdict(wr is None, rule, f, 'temporality-answer-keeps-no-state', wr[0] if wr else None,
+               'no member is written' if wr is None else
+               'MetricCollector::GetAggregationTemporality writes %s: the answer for one instrument type is remembered and served for every other type' % path_str(wr[1]))
+
+
 def run(ck, prog):
     ck.doc('C06.R1', 'lock-field association: table + Aggregate under the table lock; stashes under their lock; sum point under its lock', 10)
     ck.doc('C06.R2', 'every Add/Record overload forwards value/attributes/context to the matching storage call; multi storage to all', 20)
@@ -494,6 +527,7 @@ def run(ck, prog):
     ck.doc('C06.R5', 'registry writes in the per-view callback use a view-dependent key', 2)
     ck.doc('C06.R6', 'Sum Merge = this + delta, Diff = next - this', 4)
     ck.doc('C06.R7', 'collection fan-in: every meter and every storage is visited; iteration callbacks never ask to stop', 3)
+    ck.doc('C06.R8', 'a collector answers with the reader\'s temporality for this instrument type on this call (asked on every path, no cached state)', 2)
     ck.doc('C08.R2', '(shared rule, see C08) every constructor / mutation of the series key ends in UpdateHash()', 5)
     ck.doc('C08.R4', '(shared rule, see C08) overflow guard arithmetic; lookup miss -> overflow test -> insertion in every GetOrSetDefault', 5)
     with ck.canary('C06.R1'):
@@ -507,6 +541,7 @@ def run(ck, prog):
     rule_r5(ck, prog)
     rule_r6(ck, prog)
     rule_r7(ck, prog)
+    rule_r8(ck, prog)
     from . import c08
     c08.rule_r4(ck, prog)
     c08.rule_r2(ck, prog)
